@@ -418,7 +418,6 @@ func boundaryTests(c *core.Ctx, p *load.Program, rule string, pkgs ...string) {
 	}
 }
 
-
 // r09PrefixOnly (R09.7)
 func r09PrefixOnly(c *core.Ctx, p *load.Program) {
 	for _, fn := range pkgFuncs(p, "os") {
